@@ -17,6 +17,11 @@ import collections
 THEOREMS_ORDERS = [
     "bfsOrder_perm", "bfsOrder_terminates",
     "rcmVertexOrder_covers", "rcmVertexOrder_perm", "rcmChipOrder_perm",
+    "rcmVertexOrder_terminates", "rcmVertexOrder_no_python_error", "rcmChipOrder_terminates",
+    "rcmChipOrder_no_python_error", "dfs_terminates", "connectedSubgraphs_terminates", "cuthillMckee_terminates",
+    "connectedSubgraphs_connected", "cuthillMckee_diverges_disconnected",
+    "rcmPlace_terminates", "bfsPlace_terminates", "hilbertPlace_terminates",
+    "hilbertLevel_least", "hilbertLevel_unique", "clog2_eq_levels", "hilbert_level_covers_iff", "hilbert_covers_all",
     "hilbert_curve_fills_square", "hilbert_perm_square", "levels_spec", "hilbertChipOrder_covers",
     "isPermOf_iff", "coversOnce_iff",
     "seqPlace_complete_of_perm", "bfsPlace_complete_unit", "hilbertPlace_complete_unit", "rcmPlace_complete_unit",
@@ -39,16 +44,38 @@ CLAIM_ORDERS = (
     "by exact correspondence of every order function (and of _get_vertices_neighbours, _dfs, "
     "_get_connected_subgraphs, _cuthill_mckee, the nets built by rcm_chip_order, hilbert(level)) with recorded set "
     "iteration orders, and by the Lean predicates isPermOf / coversOnce evaluated on the orders the wrappers hand to "
-    "the sequential placer on an exactly-filling unit-demand problem.")
+    "the sequential placer on an exactly-filling unit-demand problem. TERMINATION OF THE ORDER FUNCTIONS (new, all "
+    "inputs, all oracle streams): rcm_vertex_order / rcm_chip_order never exhaust the step bounds of their three while "
+    "loops - _dfs ends within 1 + (sum of the sizes of the inner neighbour dictionaries) iterations (measure: stack "
+    "length + sizes of the dictionaries of unvisited vertices), _get_connected_subgraphs within one iteration per "
+    "distinct vertex, _cuthill_mckee within len(subgraph) iterations BECAUSE every subgraph it is handed is the "
+    "depth-first closure of a vertex in a symmetric table, hence connected (connectedSubgraphs_connected), so every "
+    "layer before the last is non-empty (cuthillMckee_terminates; cuthillMckee_diverges_disconnected is the "
+    "kernel-checked witness that on a disconnected vertex set the loop runs out of ANY fuel - the docstring's warning); "
+    "the same invariant shows that the KeyError / ValueError _cuthill_mckee can raise on its own are unreachable "
+    "inside rcm_vertex_order (rcmVertexOrder_no_python_error). rcmPlace_terminates / bfsPlace_terminates / "
+    "hilbertPlace_terminates compose these with seqPlace_terminates: no loop of the three wrapper placers exceeds its "
+    "bound. HILBERT LEVEL (new): levels n is THE least k with n <= 2^k for every n >= 1 (hilbertLevel_least, "
+    "hilbertLevel_unique), the two models of the level are one function (clog2_eq_levels), and hilbert(L) covers a "
+    "w x h machine IF AND ONLY IF max(w, h) <= 2^L (hilbert_level_covers_iff, every L, w, h), so the exact level "
+    "covers every machine and no smaller level does (hilbert_covers_all): a float evaluation that comes out too "
+    "large is harmless, one that comes out too small loses chips. The float expression int(ceil(log(n, 2.0))) is "
+    "compared with the integer level for every n <= 65536 AND for 2^k - 1, 2^k, 2^k + 1 up to k = 62 on every run; the "
+    "first n at which CPython's math.log deviates is recorded in the evidence (hilbert_level_float).")
 
 NOTE_ORDERS = (
-    "Order functions, NOT proved, only validated by the exact correspondence on every run: termination of "
-    "rcm_vertex_order (that _dfs and _cuthill_mckee never exhaust the model's fuel - for _cuthill_mckee this needs "
-    "the connectivity of each subgraph; the RCM theorems are stated for the runs that return, the breadth-first ones "
-    "include termination); that int(ceil(log(n, 2.0))) is the integer ceil-log2 `levels n` (enumerated for every "
-    "n <= 65536 on every run; the float expression is too small from n = 2**49+1 on, far outside any machine). Net "
+    "Order functions, NOT proved, only validated by the exact correspondence on every run: that "
+    "int(ceil(log(n, 2.0))) is the integer ceil-log2 `levels n` - a property of CPython's math.log, not of rig: "
+    "enumerated for every n <= 65536 on every run (a deviation there is a broken correspondence) and probed at "
+    "2^k - 1, 2^k, 2^k + 1 for k <= 62, where the first deviation is RECORDED as a fact (evidence key "
+    "hilbert_level_float with first_too_large / first_too_small; observed on this platform: one level too large "
+    "first at n = 2**29 - harmless by hilbert_level_covers_iff, the curve still covers - and too small first at "
+    "n = 2**49 + 1 - by hilbert_covers_all such a machine would lose chips, but no machine has a dimension of "
+    "5.6e14). Net "
     "weights are exact multiples of 1/4 in the generators and are handed to the model as integers; set iteration "
-    "orders and set.pop() results are recorded through a `set` subclass bound in the two modules' namespaces.")
+    "orders and set.pop() results are recorded through a `set` subclass bound in the two modules' namespaces. "
+    "Termination of rcm_vertex_order / rcm_chip_order is now a theorem (the `Fuel` outcome of the model is proved "
+    "unreachable; a `Fuel` reply would differ from every result of the implementation, i.e. be a mismatch).")
 
 RULE_ORDERS = ("order cases: netlists of 0-14 (thorough: up to 40) vertices with sparse random identifiers, 0-2n nets "
                "with 0-4 sinks (repeated sinks, self loops, zero and fractional weights, a stream with unknown "
@@ -56,7 +83,7 @@ RULE_ORDERS = ("order cases: netlists of 0-14 (thorough: up to 40) vertices with
                "every order function is run with recorded set iteration orders and compared exactly with the model; "
                "the wrappers are run on an exactly-filling unit-demand problem and the Lean predicates are evaluated "
                "on the orders they hand to the sequential placer; hilbert(level) for every level 0..6 (thorough 0..8) "
-               "and the level computation for every dimension 1..65536")
+               "and the level computation for every dimension 1..65536 and for 2^k - 1, 2^k, 2^k + 1 (k <= 62)")
 
 
 # ---------------------------------------------------------------------------
@@ -101,12 +128,20 @@ class recording(object):
         return False
 
 
+_HANGS = [0]
+
+
 def attempt(fn):
+    """run an order function / a wrapper placer under a CPU limit (a call takes milliseconds): 10 s, at most 2 s
+    once 4 calls of this run did not return, 0.5 s after 12 - a change that makes `_cuthill_mckee` loop for ever
+    hangs hundreds of calls, and the run must still end with its verdict"""
     from harness import common
+    lim = 10 if _HANGS[0] < 4 else (2 if _HANGS[0] < 12 else 0.5)
     try:
-        with common.cpu_limit(10):      # a call takes milliseconds
+        with common.cpu_limit(lim):
             return {"ok": fn()}
     except common.ImplHang as e:
+        _HANGS[0] += 1
         return {"err": "DidNotReturn", "msg": str(e)}
     except Exception as e:      # noqa - every exception type is part of the observation
         return {"err": type(e).__name__}
@@ -380,8 +415,9 @@ def eval_cases(ctx, cases):
             else:
                 ctx.tag("orders:%s:%s" % (name, res["err"]))
                 if res["err"] == "DidNotReturn":
-                    bad[name] = ("did-not-return", "%s did not return: %s (the model of the sequential placer terminates on "
-                                 "every input)" % (name, res.get("msg")))
+                    bad[name] = ("did-not-return", "%s did not return: %s (the models of the order functions and of the "
+                                 "sequential placer terminate on every input: rcmPlace_terminates, bfsPlace_terminates, "
+                                 "hilbertPlace_terminates)" % (name, res.get("msg")))
                 elif res["err"] not in ("InsufficientResourceError", "InvalidConstraintError"):
                     if closed:
                         bad[name] = ("%s-raises-%s" % (name, res["err"]),
@@ -458,6 +494,57 @@ def fixed_checks(ctx):
     if wrong:
         ctx.mismatch("c02orders.hilbert_levels", "level of hilbert_chip_order differs from ceil(log2): %r" % (wrong[:5],),
                      {"orders-fixed": "levels", "n": wrong[0][0]})
+    float_level_probe(ctx)
+
+
+def float_level_probe(ctx):
+    """The float expression of hilbert_chip_order against the integer level (hilbertLevel_least) at
+    2^k - 1, 2^k, 2^k + 1 for k <= 62.  A deviation beyond 65536 is a property of CPython's math.log on this
+    platform, recorded as a fact; one at or below 65536 (a plausible machine size) is a broken correspondence."""
+    from rig.place_and_route.place import hilbert
+    M = collections.namedtuple("M", "width height")
+    big = sorted(set(n for k in range(0, 63) for n in (2 ** k - 1, 2 ** k, 2 ** k + 1) if n >= 1))
+    lv = ctx.lean([{"suite": "c02orders", "op": "levels", "ns": big}])[0]
+    dev = []
+    for n, want in zip(big, lv):
+        if want != (n - 1).bit_length():      # the integer specification, re-derived independently of the JSON path
+            ctx.mismatch("c02orders.levels_spec", "model level %r of %d is not the least k with n <= 2^k" % (want, n),
+                         {"orders-fixed": "levels", "n": n})
+            return
+        g = hilbert.hilbert_chip_order(M(n, 1) if n % 2 else M(1, n))
+        got = g.gi_frame.f_locals.get("level")
+        g.close()
+        if got != want:
+            dev.append((n, got, want))
+    ctx.traces += 1
+    small = [d for d in dev if d[0] <= 65536]
+    fact = {"probed": len(big), "largest_probed": big[-1], "deviations": len(dev),
+            "too_small": sum(1 for d in dev if d[1] is not None and d[1] < d[2]),
+            "too_large": sum(1 for d in dev if d[1] is not None and d[1] > d[2])}
+    if dev:
+        n, got, want = dev[0]
+        fact["first_deviation"] = {"n": n, "n_as_power": _as_power(n), "float_level": got, "exact_level": want}
+        for key, sel in (("first_too_large", lambda d: d[1] is not None and d[1] > d[2]),
+                         ("first_too_small", lambda d: d[1] is None or d[1] < d[2])):
+            hit = [d for d in dev if sel(d)]
+            fact[key] = ({"n": hit[0][0], "n_as_power": _as_power(hit[0][0]), "float_level": hit[0][1],
+                          "exact_level": hit[0][2]} if hit else None)
+        ctx.tag("orders:float-level-deviates-beyond-65536" if not small else "orders:float-level-deviates-small")
+    else:
+        fact["first_deviation"] = None
+        ctx.tag("orders:float-level-exact-up-to-2^62")
+    ctx.extra["hilbert_level_float"] = fact
+    if small:
+        ctx.mismatch("c02orders.hilbert_levels", "float level differs from ceil(log2) at a plausible size: %r" % (small[:5],),
+                     {"orders-fixed": "levels", "n": small[0][0]})
+
+
+def _as_power(n):
+    for k in range(0, 64):
+        for d in (-1, 0, 1):
+            if 2 ** k + d == n:
+                return "2**%d%s" % (k, "" if d == 0 else "%+d" % d)
+    return str(n)
 
 
 def run_orders(ctx):
@@ -473,8 +560,11 @@ def run_orders(ctx):
     cases = []
     for i in range(n):
         cases.append(gen_case(ctx.rng, big=(not ctx.quick) and ctx.rng.random() < 0.15))
-    for i in range(0, len(cases), 100):
-        eval_cases(ctx, cases[i:i + 100])
+    from harness import c02
+    for i in range(0, len(cases), 25):
+        eval_cases(ctx, cases[i:i + 25])
+        if c02.hang_verdict_reached(ctx, _HANGS[0]):
+            break
 
 
 def replay_orders(ctx, payload):
